@@ -1,10 +1,11 @@
-\* C24 quick: plain strings <= 4 chars over 8 letters; RLE strings <= 2 runs (theorems + table)
+\* C24 quick: plain strings <= 3 chars over 8 letters; RLE strings <= 2 runs; reduced tag parts
 INIT TInit
 NEXT TNext
 CONSTANTS
   PlainAlpha = {"a", "0", "-", "_", ".", "+", "A", "!"}
-  PlainMax = 4
+  PlainMax = 3
   RleAlpha = {"a", "0", "-", "_", "+", "A", "!", "."}
   RleLens = {1, 2, 9, 10, 11, 39, 40, 41}
   RleMaxRuns = 2
+  TagLevel = 1
 CHECK_DEADLOCK FALSE
